@@ -6,6 +6,15 @@ here = os.path.dirname(os.path.dirname(os.path.abspath(__file__)))
 rp, fid, status, commit = sys.argv[1:5]
 what = " ".join(sys.argv[5:])
 rec = json.load(open(rp))
+if "bucket" not in rec or rec["bucket"] is None:
+    # derive clause/bucket by replaying against the tree that exhibits the defect
+    import subprocess
+    orig = os.environ.get("ORIG_REPO", "/tmp/nauyaca-orig")
+    out = subprocess.run([os.path.join(here, "check"), "--replay", rp], capture_output=True, text=True,
+                         env={**os.environ, "VERIF_REPO": orig}).stdout
+    j = json.loads(out[: out.rindex("}") + 1])
+    assert j["verdict"] == "violation", out
+    rec["clause"], rec["detail"], rec["bucket"] = j["clause"], j["detail"], j["clause"]
 dst = os.path.join("findings", fid + ".json")
 json.dump({k: rec[k] for k in ("property", "lane", "case", "clause", "detail", "bucket") if k in rec},
           open(os.path.join(here, dst), "w"), indent=1, ensure_ascii=True)
